@@ -158,6 +158,7 @@ func (fv *FV) callBuiltin(st *State, ins ssa.CallInstruction, v ssa.Value, b *ss
 		if isInterface(mm.Key()) && !isInterface(cc.Args[1].Type()) {
 			k = fv.u.box(k, cc.Args[1].Type())
 		}
+		fv.guardCheck(st, args[0], true, pos, "map delete")
 		fv.mapDelete(st, mt, args[0], k)
 	case "close":
 		fv.noteUnsupported("close(chan)")
@@ -303,8 +304,38 @@ func (fv *FV) externalCall(st *State, ins ssa.CallInstruction, v ssa.Value, sig 
 	}
 	rs := fv.freshResults(st, sig, "x_"+sanitize(lastDot(name)))
 	fv.assumeValidResults(st, sig, rs)
+	fv.assumeForeignErrs(st, sig, rs)
+	if !strings.Contains(name, "gqlparser") {
+		for i := 0; i < sig.Results().Len(); i++ {
+			if named, ok := sig.Results().At(i).Type().(*types.Named); ok && named.Obj().Name() == "error" && named.Obj().Pkg() == nil {
+				if nv := fv.nonVacuousErr(rs[i]); nv != "" {
+					fv.assume(st, nv) // only gqlparser produces gqlerror.List values
+				}
+			}
+		}
+	}
 	fv.setResults(st, v, rs)
 	fv.unmodelled["external: "+name] = true
+}
+
+// assumeForeignErrs: code outside the repository cannot construct the repository's
+// gqlerrors.ErrorList, so an error it returns is never one.
+func (fv *FV) assumeForeignErrs(st *State, sig *types.Signature, rs []string) {
+	p := fv.eng.pkgByPath[repoModule+"/gqlerrors"]
+	if p == nil || p.Types == nil {
+		return
+	}
+	o, ok := p.Types.Scope().Lookup("ErrorList").(*types.TypeName)
+	if !ok {
+		return
+	}
+	for i := 0; i < sig.Results().Len(); i++ {
+		t := sig.Results().At(i).Type()
+		if named, ok := t.(*types.Named); ok && named.Obj().Name() == "error" && named.Obj().Pkg() == nil {
+			fv.assume(st, not(fv.u.isType(rs[i], o.Type())))
+			fv.used("errors returned by code outside the repository are never gqlerrors.ErrorList values")
+		}
+	}
 }
 
 func lastDot(s string) string {
